@@ -308,7 +308,10 @@ func (x *Exec) conv(dst, src types.Type, v Value) Value {
 				if t.W == dw {
 					return t
 				}
-				x.unsupported("symbolic float width conversion")
+				if dw == 64 {
+					return x.f32to64(t)
+				}
+				return x.f64to32(t)
 			}
 			return x.floatConst(dw, x.floatVal(t))
 		case sf && !df:
